@@ -40,6 +40,9 @@ Back-end: a compiler for the imperative subset these methods use, into total Lea
 * `for k in r.f.keys(): r.f[k] op= e` on a dict field of a record local takes the dict out, maps its items and puts it
   back; a `bool` parameter is a decidable `Prop`; `__init__` is the function from its arguments to the record of the
   attributes it sets (`self.a` = a local, every field must be set); `x = e; return x` = `return e`.
+* A test on a flag no statement of a loop assigns is hoisted out of the loop and adjacent `if`s on it are merged
+  (`_unswitch`): `_inclusion_exclusion_bounds` is one pair of nested loops per side however the source places the tests.
+  The order of the loop-carried variables compares their updates with body-local names put back.
 * NOT modelled, by decision: `assert` statements and `_logger` calls are skipped; `math.nan` is `nanAsZero = 0` (the fields
   it is stored in are only read through `max(0.0, nan - x)`, which is 0.0; replayed by the harness on sets without
   capacity); `list[0]` of an empty list / a missing dict key / `min()` of an empty generator are `default` (the tie
@@ -387,11 +390,57 @@ def _simple_tail(stmts: list[ast.stmt]) -> bool:
     return 0 < len(stmts) <= 3 and not any(isinstance(n, (ast.For, ast.While, ast.If)) for s in stmts for n in ast.walk(s))
 
 
+def _flag_test(t: ast.expr) -> tuple[str, bool] | None:
+    """(name, polarity) of a test that is a plain name or its negation"""
+    pol = True
+    while isinstance(t, ast.UnaryOp) and isinstance(t.op, ast.Not):
+        t, pol = t.operand, not pol
+    return (t.id, pol) if isinstance(t, ast.Name) else None
+
+
+def _unswitch(stmts: list[ast.stmt]) -> list[ast.stmt]:
+    """A test on a flag that no statement of the loop assigns is decided once, outside the loop:
+    `for x in xs: if flag: A else: B` = `if flag: (for x in xs: A) else: (for x in xs: B)`; two adjacent `if`s on the same
+    flag (not assigned in between) are one `if`.  So it does not matter whether the source tests the flag inside or outside
+    its loops."""
+    def names_stored(ss: list[ast.stmt]) -> set[str]:
+        return {y.id for st in ss for y in ast.walk(st) if isinstance(y, ast.Name) and isinstance(y.ctx, (ast.Store, ast.Del))}
+
+    out: list[ast.stmt] = []
+    for s in stmts:
+        if isinstance(s, ast.For) and not s.orelse:
+            body = _unswitch(_no_doc(list(s.body)))
+            s = ast.copy_location(ast.For(target=s.target, iter=s.iter, body=body, orelse=[]), s)
+            if len(body) == 1 and isinstance(body[0], ast.If):
+                ft = _flag_test(body[0].test)
+                if ft is not None and ft[0] not in names_stored([s]):
+                    i = body[0]
+                    yes, no = (i.body, i.orelse) if ft[1] else (i.orelse, i.body)
+                    mk = lambda b: [ast.copy_location(ast.For(target=s.target, iter=s.iter, body=list(b) or [ast.Pass()], orelse=[]), s)]  # noqa: E731
+                    s = ast.copy_location(ast.If(test=ast.Name(id=ft[0], ctx=ast.Load()), body=mk(yes), orelse=mk(no)), s)
+        elif isinstance(s, ast.If):
+            s = ast.copy_location(ast.If(test=s.test, body=_unswitch(s.body), orelse=_unswitch(s.orelse)), s)
+            ft = _flag_test(s.test)
+            if ft is not None and not ft[1]:
+                s = ast.copy_location(ast.If(test=ast.Name(id=ft[0], ctx=ast.Load()), body=s.orelse or [ast.Pass()], orelse=s.body), s)
+        if out and isinstance(s, ast.If) and isinstance(out[-1], ast.If):
+            a, b = _flag_test(out[-1].test), _flag_test(s.test)
+            if a is not None and b is not None and a == b and a[1] and a[0] not in names_stored([out[-1]]) \
+                    and not D._ends_block(out[-1].body) and not D._ends_block(out[-1].orelse):
+                prev = out[-1]
+                out[-1] = ast.copy_location(ast.If(test=prev.test, body=[x for x in prev.body if not isinstance(x, ast.Pass)] + s.body,
+                                                   orelse=[x for x in prev.orelse if not isinstance(x, ast.Pass)] + s.orelse), prev)
+                continue
+        out.append(s)
+    # the merge may have produced a loop body that is now a single `if` on a flag: once more from the outside
+    return out
+
+
 def canon_block(stmts: list[ast.stmt]) -> list[ast.stmt]:
     """Canonical statement lists: every `if` in the canonical polarity; `if a: X elif b: X else: Y` = `if a or b: X else:
     Y`; `if a: (if b: X else: Y) else: Y` = `if a and b: X else: Y`; a short loop-free tail after an `if` is continued
     in both arms; `while c: if e: break; …` = `while c and not e: …`."""
-    stmts = _comprehensions(stmts)
+    stmts = _unswitch(_comprehensions(stmts))
     if len(stmts) >= 2 and isinstance(stmts[-1], ast.Return) and isinstance(stmts[-1].value, ast.Name):
         last, name = stmts[-2], stmts[-1].value.id  # `x = e; return x` = `return e`
         tgt = last.targets[0] if isinstance(last, ast.Assign) and len(last.targets) == 1 else (
@@ -1077,6 +1126,28 @@ class Compiler:
             if n not in out:
                 out.append(n)
 
+        # locals of the body that merely name an expression (assigned once in the body): put back for the comparison of
+        # the updates, so that naming a sub-expression does not change the order of the state
+        import copy
+        assigned_once: dict[str, ast.expr] = {}
+        counts: dict[str, int] = {}
+        for st in body:
+            for x in ast.walk(st):
+                if isinstance(x, (ast.Assign, ast.AugAssign, ast.For)):
+                    for t in (x.targets if isinstance(x, ast.Assign) else [x.target]):
+                        for y in ast.walk(t):
+                            if isinstance(y, ast.Name) and isinstance(y.ctx, ast.Store):
+                                counts[y.id] = counts.get(y.id, 0) + 1
+                                if isinstance(x, ast.Assign) and isinstance(t, ast.Name):
+                                    assigned_once[y.id] = x.value
+        assigned_once = {k: v for k, v in assigned_once.items() if counts.get(k) == 1 and not env.has(k)}
+
+        def put_back(e: ast.expr, depth: int = 0) -> ast.expr:
+            if depth > 10:
+                return e
+            return D._Subst({k: put_back(v, depth + 1) for k, v in assigned_once.items()
+                             if any(isinstance(y, ast.Name) and y.id == k for y in ast.walk(e))}).visit(copy.deepcopy(e))
+
         def shape(n: str) -> str:
             names = {n} | {d for d, v in env.v.items() if v.item_of is not None and v.item_of[1] == n}
             parts = []
@@ -1095,8 +1166,7 @@ class Compiler:
                     while isinstance(root, (ast.Subscript, ast.Attribute)):
                         root = root.value
                     if isinstance(root, ast.Name) and root.id in names:
-                        import copy
-                        v2 = copy.deepcopy(val)
+                        v2 = put_back(val)
                         for y in ast.walk(v2):
                             if isinstance(y, ast.Name):
                                 y.id = "_"
@@ -1355,14 +1425,13 @@ class Compiler:
             fn = D._norm_func(self.tree, pyname)
             src = D._func(self.tree, pyname)
         else:
-            scope = self.tree.body if owner is None else next(
-                (c.body for c in self.tree.body if isinstance(c, ast.ClassDef) and c.name == owner), None)
-            src = next((f for f in (scope or []) if isinstance(f, ast.FunctionDef) and f.name == pyname), None)
+            clsnode = None if owner is None else next(
+                (c for c in self.tree.body if isinstance(c, ast.ClassDef) and c.name == owner), None)
+            scope = self.tree.body if owner is None else (clsnode.body if clsnode is not None else [])
+            src = next((f for f in scope if isinstance(f, ast.FunctionDef) and f.name == pyname), None)
             if src is None:
                 raise Unsupported(f"{owner or 'module'}.{pyname} not found")
-            fn = copy.deepcopy(src)
-            fn.body = D._norm_block(fn.body)
-            D._inline_single_use(fn)
+            fn = D._norm_fn(src, clsnode, self.tree)
         if pyname == "__init__":
             rec = FIXED_CLASSES[owner]  # type: ignore[index]
 
